@@ -90,6 +90,22 @@ LAYERS = [
           and not any(c in p for c in b"\n\t\x0b\x0c"),
           val=lambda p: b"cmd /c " + p, wrap=(b"(", b")")),
 ]
+# ---- encoder VARIANTS: the same supported encodings written the other ways their producers write them (JavaScript escape() leaves
+# A-Za-z0-9@*_+-./ alone; XML references with a capital X / capital hex digits / leading zeros; lower-case percent escapes; single quotes)
+_JS_SAFE = b"ABCDEFGHIJKLMNOPQRSTUVWXYZabcdefghijklmnopqrstuvwxyz0123456789@*_+-./"
+LAYERS += [
+    Layer("unescape_js", lambda p: b"unescape('" + b"".join(bytes([c]) if c in _JS_SAFE else b"%%%02X" % c for c in p) + b"')", "string", "function.unescape", lambda p: len(p) >= 1 and b"'" not in p),
+    Layer("unescape_lower", lambda p: b"unescape('" + b"".join(b"%%%02x" % c for c in p) + b"')", "string", "function.unescape", lambda p: len(p) >= 1),
+    Layer("xmlhexX", lambda p: b"".join(b"&#X%02x;" % c for c in p), "", "unescape.xml", lambda p: len(p) >= 5),
+    Layer("xmlhexU", lambda p: b"".join(b"&#x%02X;" % c for c in p), "", "unescape.xml", lambda p: len(p) >= 5),
+    Layer("xmlmixed", lambda p: b"".join((b"&#X%02X;" if i % 3 == 0 else b"&#%03d;" if i % 3 == 1 else b"&#%d;") % c for i, c in enumerate(p)), "", "unescape.xml", lambda p: len(p) >= 5),
+    Layer("atob_sq", lambda p: b"atob('" + base64.b64encode(p) + b"')", "javascript.string", "encoding.base64", lambda p: len(p) >= 1),
+    Layer("FromBase64String_sq", lambda p: b"[System.Convert]::FromBase64String('" + base64.b64encode(p) + b"')", "powershell.bytes", "encoding.base64", lambda p: len(p) >= 1),
+    Layer("concat_sq", lambda p: _concat(p, b"'", b" + "), "string", "concatenation", lambda p: _noquote(p) and len(p) >= 2),
+    Layer("concat_tight", lambda p: _concat(p, b'"', b"+"), "string", "concatenation", lambda p: _noquote(p) and len(p) >= 2),
+    Layer("reverse_sq", lambda p: b"reverse('" + p[::-1] + b"')", "string", "reverse", lambda p: len(p) >= 1 and not any(c in p for c in b"'`\\")),
+    Layer("StrReverse_dq", lambda p: b'StrReverse("' + p[::-1] + b'")', "vba.string", "vba.reverse", lambda p: len(p) >= 1 and not any(c in p for c in b'"`\\')),
+]
 LAYERS.append(Layer("ps_bytes", lambda p: b",".join((b"0x%02x" % c) if i % 3 else (b"%d" % c) for i, c in enumerate(p)), "powershell.bytes", "", lambda p: len(p) >= 501))
 BY_NAME = {l.name: l for l in LAYERS}
 
@@ -100,6 +116,8 @@ PAYLOADS = [
     b"C:\\Users\\Public\\stage2\\loader.dll -silent",
     b"nothing interesting in this payload at all",
     b"WScript.Shell run calc.exe then exit quietly",
+    b"a+b = c + d; x>>>y ??? http://evil.example.com/a+b?q=1+2 ~~~ done",      # base64 of this uses '+' and '/'; the text itself has '+'
+    b"\xfb\xef\xbe ping 10.20.30.40 \xff\xfe\xfd",
     b"fetch http://evil.example.com/stage2.bin and wait; " + b"lorem ipsum dolor sit amet consectetur " * 12 + b"end of the long payload",
 ]
 
